@@ -2,6 +2,8 @@
 (assumed semantics, DESIGN.md §2.4; conformance-tested against CPython in vf/pyvc/conformance.py)."""
 from __future__ import annotations
 
+import ast
+
 import z3
 
 from . import seqs as SQ
@@ -373,13 +375,36 @@ def _quant(eng, lam, n, st, Q, trig=None):
         if isinstance(trig, Closure):
             for nm2, c2 in zip([a.arg for a in trig.node.args.args], bound):
                 st.env[nm2] = V(TInt if c2.sort() == z3.IntSort() else st.env[names[[str(x) for x in bound].index(str(c2))]].ty, c2)
-            tv = eng.ev(trig.node.body, st)
-            tvs = tv if isinstance(tv, tuple) else (tv,)
-            terms = [x.t for x in tvs]
-            pats = [z3.MultiPattern(*terms) if len(terms) > 1 else terms[0]]
+            # a tuple is ONE multi-pattern (all terms must match); a list gives ALTERNATIVE patterns (any of them instantiates)
+            alts = trig.node.body.elts if isinstance(trig.node.body, ast.List) else [trig.node.body]
+            for alt in alts:
+                tv = eng.ev(alt, st)
+                tvs = tv if isinstance(tv, tuple) else (tv,)
+                terms = [x.t for x in tvs]
+                pats.append(z3.MultiPattern(*terms) if len(terms) > 1 else terms[0])
     finally:
         st.env = saved
-    return V(TBool, Q(bound, b, patterns=pats) if pats else Q(bound, b))
+    if pats and not any(_has_ite(p_) for p_ in pats):
+        try:
+            return V(TBool, Q(bound, b, patterns=pats))
+        except z3.Z3Exception:
+            pass
+    # (the trigger mentions a term that is not a valid pattern in this state, e.g. an if-then-else value: the solver chooses)
+    return V(TBool, Q(bound, b))
+
+
+def _has_ite(e):
+    seen, stack = set(), [e]
+    while stack:
+        x = stack.pop()
+        if x.get_id() in seen:
+            continue
+        seen.add(x.get_id())
+        if z3.is_app(x):
+            if x.decl().kind() == z3.Z3_OP_ITE:
+                return True
+            stack.extend(x.children())
+    return False
 
 
 def ast_name(node):
@@ -521,6 +546,10 @@ def method(eng, recv, meth, args, kw, n, st):
                 return V(TBool, z3.SetIntersect(recv.t, _as_set(args[0])) == z3.EmptySet(ty.elem.sort()))
             if meth == "copy":
                 return recv
+    if isinstance(recv, V):
+        k = eng.reg.lookup_method(getattr(recv.ty, "name", ""), meth)       # a model supplied by the contract's registry (e.g. Bool.astype)
+        if k is not None and not hasattr(k, "requires"):
+            return k(eng, [recv] + list(args), kw, n, st)
     raise OutOfSubset(n, f"method {meth} on {recv!r}")
 
 
@@ -585,6 +614,8 @@ def mutate(eng, cur, meth, args, n, st):
                 return r
             raise OutOfSubset(n, f"mutator {meth} on a keyed set")
         if isinstance(ty, TDict):
+            if meth == "clear":
+                return eng.empty_of(ty)
             if meth == "update":
                 o = args[0]
                 if isinstance(o, V) and isinstance(o.ty, TDict) and o.ty == ty:
